@@ -105,8 +105,9 @@ def build_module(structure, log, modname='verifmod', base='tdda'):
         if not progressed:
             raise ValueError('inheritance cycle')
     for c in order:
+        # a class may be a plain unittest.TestCase that only borrows the @tag decorator ('plain': True)
         parent = made[c['parent']] if c.get('parent') else (
-            ReferenceTestCase if base == 'tdda' else unittest.TestCase)
+            ReferenceTestCase if (base == 'tdda' and not c.get('plain')) else unittest.TestCase)
         ns = {'__module__': modname}
         for t in c['tests']:
             def make(tname):
